@@ -377,3 +377,111 @@ def eval_gate_test(test, version):
 def version_grid(tier):
     minors = range(0, 10) if tier == "thorough" else range(0, 6)
     return [(a, b) for a in (0, 1, 2) for b in minors]
+
+
+# ---------------------------------------------------------------------------------------------------------
+# regex inventory
+# ---------------------------------------------------------------------------------------------------------
+class RegexSite(object):
+    def __init__(self, pattern, where, lineno, how, name=None, module=None):
+        self.pattern = pattern
+        self.where = where
+        self.lineno = lineno
+        self.how = how
+        self.name = name
+        self.module = module
+
+    @property
+    def site(self):
+        return "productmd/%s.py:%s" % (self.module, self.lineno)
+
+    @property
+    def key(self):
+        return "%s:%s" % (self.where, self.name or self.pattern)
+
+
+RE_FUNCS = ("compile", "match", "search", "fullmatch", "split", "sub", "subn", "findall", "finditer")
+
+
+def regex_sites(model):
+    """every pattern handed to the re module, folded to a constant.  A pattern that cannot be folded is an
+    AnalysisError, except inside the generic helper MetadataBase._assert_matches_re whose call sites are folded
+    instead (their pattern lists are constants: checked by assertions_of)."""
+    out = []
+    seen_nodes = set()
+    # module level: NAME = re.compile(...), and the LABEL_RE_LIST loop
+    for m in model.modules.values():
+        for name, assigns in m.assigns.items():
+            try:
+                v = model._module_const(m, name)
+            except NotConst:
+                continue
+            items = v if isinstance(v, list) else [v]
+            if items and all(isinstance(x, RegexConst) for x in items):
+                for i, x in enumerate(items):
+                    out.append(RegexSite(x.pattern, "%s.%s" % (m.name, name), assigns[-1].lineno, "compile",
+                                         name=name if len(items) == 1 else "%s[%d]" % (name, i), module=m.name))
+        for node in m.toplevel:
+            if isinstance(node, (ast.FunctionDef, ast.ClassDef)):
+                continue
+            for sub in ast.walk(node):
+                if isinstance(sub, ast.Call) and (dotted(sub.func) or "").startswith("re."):
+                    seen_nodes.add(id(sub))
+    # inside functions
+    for f in model.all_functions():
+        for node in ast.walk(f.node):
+            if not isinstance(node, ast.Call) or id(node) in seen_nodes:
+                continue
+            d = dotted(node.func) or ""
+            if d.startswith("re.") and d[3:] in RE_FUNCS:
+                if not node.args:
+                    raise AnalysisError("regex call without pattern at %s" % f.module.site(node))
+                try:
+                    pat = model.fold(node.args[0], f.module)
+                except NotConst as e:
+                    if f.qname == "common.MetadataBase._assert_matches_re":
+                        continue
+                    raise AnalysisError("regex pattern at %s cannot be folded: %s" % (f.module.site(node), e))
+                if isinstance(pat, RegexConst):
+                    pat = pat.pattern
+                if not isinstance(pat, str):
+                    raise AnalysisError("regex pattern at %s is not a string" % f.module.site(node))
+                if len(node.args) > 2 and d[3:] in ("compile",) or any(k.arg == "flags" for k in node.keywords):
+                    raise AnalysisError("regex flags at %s are not supported" % f.module.site(node))
+                out.append(RegexSite(pat, f.qname, node.lineno, d[3:], module=f.module.name))
+    # patterns given to _assert_matches_re
+    for cls in metadata_classes(model):
+        for a in assertions_of(model, cls):
+            if a.kind == "re" and a.defcls is cls:
+                for p in a.arg:
+                    out.append(RegexSite(p, "%s.%s" % (cls.qname, a.method), a.lineno, "assert_matches_re(match)",
+                                         module=cls.module.name))
+    # de-duplicate identical (where, pattern)
+    uniq = {}
+    for s in out:
+        uniq.setdefault((s.where, s.pattern, s.how), s)
+    return sorted(uniq.values(), key=lambda s: (s.module, s.lineno, s.pattern))
+
+
+def module_regex(model, modname, name):
+    v = model.const(modname, name)
+    if not isinstance(v, RegexConst):
+        raise AnalysisError("%s.%s is not a compiled regular expression" % (modname, name))
+    return v.pattern
+
+
+def function_regexes(model, fref):
+    """patterns compiled/matched inside one function: [(pattern, how, lineno)]"""
+    out = []
+    for node in ast.walk(fref.node):
+        if isinstance(node, ast.Call):
+            d = dotted(node.func) or ""
+            if d.startswith("re.") and d[3:] in RE_FUNCS and node.args:
+                try:
+                    pat = model.fold(node.args[0], fref.module)
+                except NotConst:
+                    continue
+                if isinstance(pat, RegexConst):
+                    pat = pat.pattern
+                out.append((pat, d[3:], node.lineno))
+    return out
